@@ -124,7 +124,7 @@ def instance(cls, env):
 
 OPERAND_SLOTS = ["arith_left", "arith_right", "cmp_left", "cmp_right", "bool_right", "not", "neg", "in_term", "in_elem", "between_term", "between_lo",
                  "fn_arg", "case_when", "case_then", "case_else", "tuple_elem", "array_elem", "isnull", "where_root", "having_root", "on_root",
-                 "win_partition", "win_order", "select_arith", "select_fn_arg", "insert_value", "insert_row_last", "update_set_value", "orderby_expr", "groupby_expr", "conflict_target", "values_fn_arg", "attz_field", "extract_field", "cast_arg"]
+                 "win_partition", "win_order", "select_arith", "select_fn_arg", "insert_value", "insert_row_last", "update_set_value", "orderby_expr", "groupby_expr", "conflict_target", "values_fn_arg", "attz_field", "extract_field", "cast_arg", "bool_left", "bool_or_left", "period_term", "period_bound", "like_pattern", "json_operand"]
 DEFINING = ["select", "select_last", "returning", "distinct_on"]
 # the same operand slots with the enclosing expression as a select-list item (the one clause rendered with with_alias=True), and with it as
 # an aliased select-list item: the operand's alias must not appear, the item's own alias exactly once
@@ -236,6 +236,18 @@ def statement(cls_name, pos, X, as_selectable=False):
         return base.select(fn.Extract(DatePart.year, X))
     elif pos == "cast_arg":
         return base.select(fn.Cast(X, "INT"))
+    elif pos == "bool_left":
+        w = X & (d == 1)
+    elif pos == "bool_or_left":
+        w = (X | (d == 1)) & (c == 2)
+    elif pos == "period_term":
+        return Q.update(t.for_portion(X.from_to(1, 2))).set(d, 1)
+    elif pos == "period_bound":
+        return Q.update(t.for_portion(P.Field("valid").from_to(X, 9))).set(d, 1)
+    elif pos == "like_pattern":
+        w = d.like(X)
+    elif pos == "json_operand":
+        w = d.get_json_value(X) if False else d.has_key(X)  # noqa: W601 - the JSON operator's right operand
     elif pos == "conflict_target":
         return Q.into(t).columns("c").insert(1).on_conflict(X).do_nothing()
     elif pos == "update_set_value":
